@@ -5,7 +5,6 @@ package dbh
 import (
 	"bytes"
 	"context"
-	"encoding/binary"
 	"errors"
 	"fmt"
 	"io"
@@ -54,18 +53,6 @@ func Cleanup() {
 	}
 }
 
-// detRand is a deterministic byte source for uuid.SetRand.
-type detRand struct{ n uint64 }
-
-func (d *detRand) Read(p []byte) (int, error) {
-	for i := 0; i < len(p); i += 8 {
-		d.n++
-		var b [8]byte
-		binary.BigEndian.PutUint64(b[:], d.n*0x9E3779B97F4A7C15+0x1234567)
-		copy(p[i:], b[:])
-	}
-	return len(p), nil
-}
 
 // Spec describes an instance.
 type Spec struct {
@@ -111,7 +98,7 @@ func FreshWorld() {
 	badger.ResetVolumes()
 	disk.Reset()
 	vrt.ResetGlobals()
-	uuid.SetRand(&detRand{})
+	uuid.SetRand(&vrt.DetRand{})
 }
 
 // NewProcess emulates a process restart without touching persistent state.
